@@ -345,6 +345,7 @@ func (w *World) closePass(inc *incarnation, why string) {
 	refused := ps.RootKnown && ps.RootSize > 0 && !ps.GateOpen && ps.STHKnown && ps.Submitted == 0 && (ps.GateWhy == "fork" || ps.GateWhy == "bad-proof")
 	if refused {
 		s.Probe("inconsistent.refused." + ps.GateWhy)
+		w.refusals++
 		if w.settling {
 			w.settleRefusals++
 		}
